@@ -158,9 +158,18 @@ def tracker_operator(run, prog, cls, rule, prefix):
             continue
         owners[t] = f
         inner, via_mv = t, False
-        if inner[0] == "new" and inner[2].endswith("MultiValueTracker"):
-            pos, kw = new_items(inner)
-            inner = pos[0] if pos else kw.get("base_tracker")
+
+        def wrapped(x):
+            """The base tracker handed to MultiValueTracker(...), through selections whose arms all build one."""
+            if x[0] == "gate":
+                a, b = wrapped(x[2]), wrapped(x[3])
+                return ir.gate(x[1], a, b) if a is not None and b is not None else None
+            if x[0] == "new" and isinstance(x[2], str) and x[2].endswith("MultiValueTracker"):
+                pos, kw = new_items(x)
+                return pos[0] if pos else kw.get("base_tracker")
+            return None
+        if wrapped(inner) is not None:
+            inner = wrapped(inner)
             via_mv = True
         if inner is not None and inner[0] == "new" and inner[2] == "deepcopy" and inner[3]:
             bases.setdefault(ir.strip_sites(inner[3][0]), inner[3][0])
